@@ -1,6 +1,7 @@
 package main
 
 import (
+	"strconv"
 	"crypto/sha256"
 	"encoding/hex"
 	"fmt"
@@ -198,6 +199,14 @@ func (e *Engine) Load() error {
 	}
 	fnIdx := e.indexFunctions(prog)
 	e.phase1Idx = fnIdx
+	e.files = map[string]*ast.File{}
+	for _, p := range pkgs {
+		for i, f := range p.Syntax {
+			if i < len(p.CompiledGoFiles) {
+				e.files[p.CompiledGoFiles[i]] = f
+			}
+		}
+	}
 	overlay := map[string][]byte{}
 	for _, f := range files {
 		p := byDir[filepath.Dir(f)]
@@ -813,4 +822,61 @@ func (e *Engine) cutFor(fn *ssa.Function, b *ssa.BasicBlock) *Clause {
 		}
 	}
 	return nil
+}
+
+
+// callSitePositions: positions, in source order, of the call sites of fn whose source text
+// contains sub ("sub #N" selects the N-th).
+func (e *Engine) callSitePositions(fn *ssa.Function, site string) []token.Pos {
+	sub, ord := site, 0
+	if i := strings.LastIndex(sub, "#"); i > 0 {
+		if n, err := strconv.Atoi(strings.TrimSpace(sub[i+1:])); err == nil {
+			sub, ord = strings.TrimSpace(sub[:i]), n
+		}
+	}
+	seen := map[token.Pos]bool{}
+	var ps []int
+	for _, b := range fn.Blocks {
+		for _, in := range b.Instrs {
+			switch in.(type) {
+			case *ssa.Call, *ssa.Defer, *ssa.Go:
+			default:
+				continue
+			}
+			p := in.Pos()
+			if !p.IsValid() || seen[p] {
+				continue
+			}
+			seen[p] = true
+			if strings.Contains(e.exprTextAt(p, "call"), sub) {
+				ps = append(ps, int(p))
+			}
+		}
+	}
+	sort.Ints(ps)
+	var out []token.Pos
+	for i, p := range ps {
+		if ord == 0 || ord == i+1 {
+			out = append(out, token.Pos(p))
+		}
+	}
+	return out
+}
+
+// scopedLocal resolves a local variable name as Go scoping does at position pos of fn: the
+// declaration visible there. Returns nil when the name is not a local variable of fn at pos.
+func scopedLocal(fn *ssa.Function, name string, pos token.Pos) *types.Var {
+	if fn.Pkg == nil || !pos.IsValid() {
+		return nil
+	}
+	sc := fn.Pkg.Pkg.Scope().Innermost(pos)
+	if sc == nil {
+		return nil
+	}
+	_, obj := sc.LookupParent(name, pos)
+	v, ok := obj.(*types.Var)
+	if !ok || v.IsField() || v.Parent() == nil || v.Parent() == fn.Pkg.Pkg.Scope() {
+		return nil
+	}
+	return v
 }
